@@ -337,7 +337,9 @@ where
                 return affected_error(input);
             }
             // TODO: maybe dynamic affection range
-            let affected_range = this_range.start..(this_range.end + 1);
+            // Some parsers look at up to two tokens behind a node,
+            // e.g. an argument ends in front of `ident :=`.
+            let affected_range = this_range.start..(this_range.end + 2);
             // The error recovery ignores tokens until it finds something it knows.
             // So the extent of a node with a syntax error may depend on any of the following tokens.
             let has_syntax_error = this
